@@ -278,6 +278,8 @@ def run(ctx):
                      'character outside a control symbol', 10)
     ctx.rule('R13b', 'every replacement of both built-in tables is brace-balanced, has an even '
                      'number of unescaped $, no unescaped %, no \\begin/\\end, and is pure ASCII', 3000)
+    ctx.rule('R13o', 'no replacement of the built-in tables ends with a macro that takes a mandatory argument (by the default '
+                     'walker specifications) without giving it one: such a replacement does not parse in strict mode on its own', 1)
     ctx.rule('R13c', 'each protection method returns its argument unchanged, wrapped in one brace '
                      'pair, or followed by {}', 5)
     ctx.rule('R13d', 'the replace / ignore / unihex policies return ASCII, brace-balanced literals '
@@ -344,16 +346,60 @@ def run(ctx):
                             % (repl, cp, ', '.join(why)), construct='%s: U+%04X' % (label, cp))
     ctx.analysed['table_entries'] = n_entries
 
+    # ------------------------------------------------------------ R13o
+    # a replacement whose last macro takes a mandatory argument (by the default walker specifications) and has
+    # nothing after it but closing braces: the encoded character, alone or protected by braces, is `\'` / `{\'}`,
+    # which the strict parser rejects (missing argument)
+    from .. import tables as _tables
+    wt_ = _tables.WalkerTable(repo)
+    n_dm = 0
+    for label, modname in MAPS:
+        mod, tab = load_map(repo, modname)
+        for cp, (repl, node) in sorted(tab.items()):
+            toks = _TOKEN.findall(repl)
+            i = len(toks) - 1
+            while i >= 0 and (toks[i] == '}' or toks[i].isspace()):
+                i -= 1
+            if i < 0 or not toks[i].startswith('\\') or len(toks[i]) < 2:
+                continue
+            n_dm += 1
+            w_ = wt_.macros.get(toks[i][1:])
+            if not w_:
+                continue
+            needs = bool(w_['args']) and w_['args'][0][0] == '{'
+            if needs:
+                ctx.refuted('R13o', mod, node, 'the replacement %r for U+%04X (rule set %s) ends with %s, which takes a mandatory '
+                            'argument in the default parser specifications, and gives it none: the encoding of that character '
+                            'alone (%r, or {%s} under the brace schemes) does not parse in strict mode, and in running text the '
+                            'macro swallows the NEXT character' % (repl, cp, label, toks[i], repl, repl),
+                            construct='%s: U+%04X ends with %s' % (label, cp, toks[i]))
+    ctx.analysed['replacements_ending_in_a_macro'] = n_dm
+    if n_dm < 300:
+        raise AnalysisError('R13o: only %d replacements end with a macro' % n_dm)
+    ctx.holds('R13o', repo.mod(MAPS[0][1]), None, '%d replacements end with a macro; those that are not reported end with one '
+              'that takes no mandatory argument in the default walker tables (%d macros known there)'
+              % (n_dm, len(wt_.macros)), construct='trailing macro scan')
+
     # ------------------------------------------------------------ R13c
     for name, f in sorted(meths.items()):
         if not name.startswith('_apply_protection_'):
             continue
         p = f.args.args[1].arg
         bad = []
-        for r in [x for x in iter_own(f) if isinstance(x, ast.Return)]:
-            t = unparse(r.value).replace(' ', '')
+        # per returning path, locals substituted and conditional expressions split into their arms
+        try:
+            rvals = [c_.sub for c_ in symex.Walker(want_returns=True).run(f) if c_.kind == 'return']
+        except symex.TooManyPaths:
+            rvals = [x.value for x in iter_own(f) if isinstance(x, ast.Return)]
+        arms = []
+        for v_ in rvals:
+            arms.extend(e_ for _cs, e_ in symex._split_ifexp(v_)) if v_ is not None else arms.append(ast.Constant(value=None))
+        for v_ in arms:
+            t = unparse(v_).replace(' ', '').replace('"', "'")
+            while t.startswith('(') and t.endswith(')'):
+                t = t[1:-1]
             if t not in (p, "'{'+%s+'}'" % p, "%s+'{}'" % p):
-                bad.append(short(r.value))
+                bad.append(short(v_))
         ctx.decide('R13c', not bad, m, f, 'returns repl, {repl} or repl{}',
                    '%s returns %s: the protection can unbalance or alter the replacement'
                    % (name, bad), construct=name)
@@ -438,6 +484,39 @@ def run(ctx):
     ctx.rule('R13k', 'the built-in rule sets hand the checked tables to the encoder unchanged (table, copy or '
                      'read-only view)', 2)
     _table_passthrough(ctx, repo)
+
+    # ---- R13p: "this rule matched" is reported as True, not as the replacement
+    ctx.rule('R13p', 'each _apply_rule_* method returns the constant True on every path on which it applied a replacement: the '
+                     'main loop tests the result by truthiness, and a replacement may be empty (U+2061) -- returning the '
+                     'replacement itself would let the pass-through arm copy the NEXT character raw, active characters included', 3)
+    n_ar = 0
+    for name, f in sorted(meths.items()):
+        if not name.startswith('_apply_rule_'):
+            continue
+        try:
+            acs = [c_ for c_ in symex.Walker(is_sink=lambda c_: call_name(c_) == '_apply_replacement', want_returns=True,
+                                             trace=True).run(f) if c_.kind == 'return']
+        except symex.TooManyPaths as e:
+            ctx.unknown('R13p', m, f, str(e), construct=name + ': result')
+            continue
+        bad = None
+        n_app = 0
+        for cs in acs:
+            applied = any(call_name(sub_) == '_apply_replacement' for _n, sub_ in cs.env.get('#trace', ()))
+            if not applied:
+                continue
+            n_app += 1
+            if not (isinstance(cs.sub, ast.Constant) and cs.sub.value is True) and bad is None:
+                bad = cs
+        n_ar += 1
+        ctx.decide('R13p', bad is None and n_app > 0, m, bad.node if bad else f,
+                   '%s: True after every applied replacement (%d path(s))' % (name, n_app),
+                   '%s returns %s after applying a replacement: when that value is falsy (the empty replacement of U+2061) the '
+                   'main loop believes no rule matched, although the position has already advanced, and copies the following '
+                   'character through unencoded (`f\\u2061%% x` yields a raw %%)' % (name, short(bad.sub, 30) if bad else ''),
+                   construct=name + ': result')
+    if n_ar < 3:
+        ctx.unknown('R13p', m, None, 'only %d _apply_rule_* methods found' % n_ar, construct='_apply_rule_*: result')
 
     # ---- R13n: the input is read at the current position only, or in range
     ctx.rule('R13n', 'the encoder reads its input string only at the current position (kept below len(s) by the main loop) '
